@@ -79,6 +79,18 @@ struct Plan
     bool sweep = true, thorough = false;
 };
 static Plan PLAN;
+
+// under AddressSanitizer (about 20x slower) the large exhaustive families are sampled; the plain flavour of the same
+// harness (Eigen index assertions on, operator-argument validation, work bound, finiteness) covers every index
+static bool asan_skip(uint64_t idx)
+{
+#ifdef VF_ASAN
+    return idx % (PLAN.thorough ? 8 : 32) != 0;
+#else
+    (void) idx;
+    return false;
+#endif
+}
 static const SortRule GEN_RULES[6] = {SortRule::LargestMagn, SortRule::LargestReal, SortRule::LargestImag, SortRule::SmallestMagn, SortRule::SmallestReal, SortRule::SmallestImag};
 
 static void prepare_matrix(Subject& S, const MatL& A, const std::string& desc)
@@ -336,12 +348,16 @@ int main(int argc, char** argv)
 #ifdef VF_ASAN
     PLAN.depth = cfg.thorough() ? 3 : 2;
 #endif
+#ifdef VF_ASAN
+    if (cfg.quick()) PLAN.sweep = false;  // quick asan: the history search only (the plain flavour runs the sweep)
+#endif
     if (const char* d = getenv("VERIF_DEPTH")) PLAN.depth = atoi(d);
     Runner R(PLAN.prop, cfg);
     const bool q = cfg.quick();
     const int ALLK = K_DENSE | K_SPARSE | K_REAL | K_REAL_SPARSE | K_CPLX | K_CPLX_SPARSE;
 
     R.run("gint3", gint_count(3, 3), [&](uint64_t idx, Local& L) {
+        if (asan_skip(idx)) { L.count("skipped_asan_sampling"); return; }
         int kinds = K_DENSE;
         if (idx % (q ? 27 : 2) == 0) kinds |= K_REAL | K_CPLX;
         if (idx % (q ? 243 : 61) == 0) kinds = ALLK;
@@ -364,6 +380,7 @@ int main(int argc, char** argv)
             do perms.push_back(p); while (std::next_permutation(p.begin(), p.end()));
         }
         R.run("perm", perms.size(), [&](uint64_t idx, Local& L) {
+        if (asan_skip(idx)) { L.count("skipped_asan_sampling"); return; }
             const auto& p = perms[idx];
             const int n = p.size();
             MatL A = MatL::Zero(n, n);
@@ -383,6 +400,7 @@ int main(int argc, char** argv)
         });
     }
     R.run("skew4", ipow(3, 6), [&](uint64_t idx, Local& L) {
+        if (asan_skip(idx)) { L.count("skipped_asan_sampling"); return; }
         if (q && idx % 3 != 0) { L.count("skipped_quick"); return; }
         MatL A = MatL::Zero(4, 4);
         uint64_t t = idx;
@@ -394,6 +412,7 @@ int main(int argc, char** argv)
     {
         if (q && deg == 5) continue;
         R.run("comp" + num(deg), ipow(3, deg), [&, deg](uint64_t idx, Local& L) {
+        if (asan_skip(idx)) { L.count("skipped_asan_sampling"); return; }
             MatL A = MatL::Zero(deg, deg);
             uint64_t t = idx;
             for (int i = 0; i + 1 < deg; i++) A(i + 1, i) = 1;
@@ -402,11 +421,13 @@ int main(int argc, char** argv)
         });
     }
     R.run("gint4", gint_count(4, 2), [&](uint64_t idx, Local& L) {
+        if (asan_skip(idx)) { L.count("skipped_asan_sampling"); return; }
         if (q && idx % 256 != 5) { L.count("skipped_quick"); return; }
         run_matrix(gint_get(4, D01(), idx), "gint4:" + num(idx), idx, K_DENSE | (idx % (q ? 512 : 32) == 5 ? K_REAL | K_CPLX : 0), L, "gint4#" + num(idx));
     });
     if (!q)
         R.run("tri4", ipow(3, 10), [&](uint64_t idx, Local& L) {
+        if (asan_skip(idx)) { L.count("skipped_asan_sampling"); return; }
             MatL A = MatL::Zero(4, 4);
             uint64_t t = idx;
             for (int j = 0; j < 4; j++)
